@@ -206,7 +206,7 @@ def native_replay(case):
     natives = {"$module": module}
     out = {"requires": [], "ensures": [], "raised": None}
     for r in c.requires:
-        out["requires"].append([r, native_eval.eval_clause(r, env, None, c.model, None, natives)])
+        out["requires"].append([r, native_eval.eval_clause(r, env, None, c.model, None, natives, strict=True)])
     old_env = copy.deepcopy(env)
     pre_ids = native_eval.collect_ids(env.values())
     try:
